@@ -25,13 +25,18 @@ ASSUMPTIONS = [
     'folding there; only lower-case types are generated); parameter names are case-insensitive',
     'ties between equally good candidates go to the first candidate (falcon/app_helpers.py relies '
     'on this to prefer JSON)',
-    'q values are rendered as "0"/"1" with 0..5 fraction digits; more than three digits are '
-    'accepted permissively as falcon documents',
+    'q values are rendered as "0"/"1" with 0..5 fraction digits; for more than three digits (a '
+    'sender MUST NOT generate them) both falcon\'s permissive reading and InvalidMediaRange are accepted',
     'not generated: empty list members, a lone "*", "*/subtype", duplicate parameter names inside '
     'one range, q given in float syntaxes outside the RFC grammar (1e-1, .5, +0.5), wildcard '
     'candidates / handler keys, malformed handler keys',
     'quoted parameter values containing "," (F17) or "\\" are generated only in separately '
     'labelled slices',
+    'content types probed against a handler mapping are a single type (no list), q absent or > 0 '
+    'with at most 3 digits: falcon reuses the Accept matcher there and the property claims nothing '
+    'about q=0 or comma lists inside a Content-Type',
+    'copy() of an emptied mapping is examined only by the handler_copy_empty suite; Handlers({}) / '
+    'empty | empty (documented "no initial mapping means the defaults") are not asserted',
     'handler mappings are observed through Handlers._resolve (the single resolution point used by '
     'Request.get_media, Response.render_body and the error serializer) and end to end through a '
     'WSGI app; the ASGI request/response call the same resolver and are not driven here',
@@ -129,6 +134,16 @@ def check_accept(case):
         raise Violation('accept_not_preserved', '%s: req.accept=%r' % (ctx, req.accept))
 
     labels = ['slice:' + case['slice'], 'header:valid' if header_valid else 'header:invalid_member']
+    if header_valid and any(m.get('q') and m['q'][1] is not None and len(m['q'][1]) > 3 for m in members):
+        # RFC 9110: a sender MUST NOT generate more than three digits; falcon currently accepts
+        # them (documented in the source); rejecting them as InvalidMediaRange is equally allowed
+        labels.append('q_more_than_3_digits')
+        try:
+            mediatypes.quality('text/plain', header)
+        except falcon_errors.InvalidMediaRange:
+            header_valid = False
+            ranges = None
+            labels.append('q_more_than_3_digits_rejected')
     if not cands_valid:
         labels.append('candidates:invalid_member')
     nontrivial = False
@@ -220,8 +235,6 @@ def check_accept(case):
             labels.append('candidates_differ_in_quality')
         if quals.count(max(quals)) >= 2 and max(quals) > 0:
             labels.append('tie_between_candidates')
-        if any(m.get('q') and m['q'][1] is not None and len(m['q'][1]) > 3 for m in members):
-            labels.append('q_more_than_3_digits')
         if any(p[2] or not is_token(p[1]) for m in members for p in m['p']):
             labels.append('quoted_param')
     if nontrivial:
@@ -238,7 +251,7 @@ class Accept(Suite):
     real falcon.Request built from a WSGI environ must agree."""
 
     name = 'accept'
-    budget = {'quick': 40000, 'thorough': 600000}
+    budget = {'quick': 30000, 'thorough': 600000}
 
     def strategy(self, tier):
         return gen.accept_cases('main')
@@ -254,7 +267,7 @@ class AcceptInvalid(Suite):
     client_accepts is False, client_prefers None."""
 
     name = 'accept_invalid'
-    budget = {'quick': 10000, 'thorough': 150000}
+    budget = {'quick': 6000, 'thorough': 150000}
 
     def strategy(self, tier):
         return gen.accept_cases('main', invalid=True)
@@ -269,7 +282,7 @@ class AcceptQuotedSpecial(Suite):
     accept suite; RFC 9110 quoted-string syntax makes these headers valid."""
 
     name = 'accept_quoted_special'
-    budget = {'quick': 6000, 'thorough': 80000}
+    budget = {'quick': 5000, 'thorough': 80000}
 
     def strategy(self, tier):
         return gen.accept_cases('quoted_comma') | gen.accept_cases('quoted_backslash')
@@ -303,14 +316,12 @@ RAW = {
     '': None,
     '*/*': [{'t': '*', 's': '*', 'params': {}, 'q': 1.0}],
     'nonsense': None,
-    'text/plain;q=7': None,
-    'text/plain;q=abc': None,
+    'textplain': None,
     'image/png': [{'t': 'image', 's': 'png', 'params': {}, 'q': 1.0}],
     'image/*': [{'t': 'image', 's': '*', 'params': {}, 'q': 1.0}],
     'text/*': [{'t': 'text', 's': '*', 'params': {}, 'q': 1.0}],
     'application/*': [{'t': 'application', 's': '*', 'params': {}, 'q': 1.0}],
     'application/json; charset=utf-8': [{'t': 'application', 's': 'json', 'params': {'charset': 'utf-8'}, 'q': 1.0}],
-    'application/json;q=0': [{'t': 'application', 's': 'json', 'params': {}, 'q': 0.0}],
     'text/plain; charset=UTF-8': [{'t': 'text', 's': 'plain', 'params': {'charset': 'UTF-8'}, 'q': 1.0}],
 }
 RAW_TEXTS = sorted(RAW)
@@ -478,7 +489,7 @@ def apply_op(op, slots, objs, ctx, step=0):
     return None
 
 
-def check_state(m, probes, defaults, ctx, seen):
+def check_state(m, probes, defaults, ctx, seen, paths=None):
     """Every probe x default x raise flag must resolve to what the model designates.
 
     `seen` maps (object uid, probe index, default index) -> previously expected handler; returns the
@@ -494,6 +505,11 @@ def check_state(m, probes, defaults, ctx, seen):
     for di, (dtext, dstruct) in enumerate(defaults):
         for pi, (ptext, pstruct) in enumerate(probes):
             exp = ref.resolve(full, ptext, pstruct, dtext, dstruct)
+            if paths is not None:
+                via_default = not ptext or ptext == '*/*'
+                eff = dtext if via_default else ptext
+                paths.add('resolved:%s%s' % ('default->' if via_default else '',
+                                             'exact_key' if eff in model else 'unsupported' if exp is None else 'best_match'))
             key = (m.uid, pi, di)
             if key in seen and seen[key] is not exp:
                 changed += 1
@@ -539,7 +555,7 @@ class HandlerHistory(Suite):
     HTTPUnsupportedMediaType / return (None, None, None)."""
 
     name = 'handler_history'
-    budget = {'quick': 8000, 'thorough': 150000}
+    budget = {'quick': 6000, 'thorough': 150000}
 
     def strategy(self, tier):
         return gen.history_cases(NKEYS, NHANDLERS, RAW_TEXTS)
@@ -562,7 +578,7 @@ class HandlerHistory(Suite):
         defaults = [probe_text_struct(p) for p in case['defaults']]
         seen = {}
         labels = set()
-        changed = check_state(slots['A'], probes, defaults, 'initial %r' % (model,), seen)
+        changed = check_state(slots['A'], probes, defaults, 'initial %r' % (model,), seen, labels)
         for i, op in enumerate(case['steps']):
             ctx = 'init=%r steps=%r (after step %d)' % (case['init'], case['steps'][:i + 1], i)
             note = apply_op(op, slots, objs, ctx, i + 1)
@@ -570,7 +586,7 @@ class HandlerHistory(Suite):
             if note:
                 labels.add(note)
             for sname in sorted(slots):
-                changed += check_state(slots[sname], probes, defaults, ctx + ' on ' + sname, seen)
+                changed += check_state(slots[sname], probes, defaults, ctx + ' on ' + sname, seen, labels)
         if 'B' in slots:
             labels.add('two_objects')
         if changed:
@@ -607,7 +623,7 @@ class HandlerEndToEnd(Suite):
     handler the response-side model designates (or the response is a 415)."""
 
     name = 'handler_end_to_end'
-    budget = {'quick': 4000, 'thorough': 60000}
+    budget = {'quick': 3000, 'thorough': 60000}
 
     def strategy(self, tier):
         return gen.e2e_cases(NKEYS, NHANDLERS, RAW_TEXTS, [t for t in RAW_TEXTS if t])
